@@ -123,7 +123,9 @@ Inductive event :=
 | EAccepted (c k ch : N)    (* a response under key k was verified against the stored challenge ch of c *)
 | EReset (c : N)            (* connection c was (re)opened, disconnected, or its response rejected *)
 | ERemoved (c : N)          (* the stale peer entry c was merged into a reconnection and removed *)
-| EPurged (c : N).          (* the stale peer entry c was purged (remove_disconnected_peers) *)
+| EPurged (c : N)           (* the stale peer entry c was purged (remove_disconnected_peers) *)
+| EStale (c ch : N).        (* the connection of entry c was re-opened while challenge ch of its
+                               previous connection stayed stored (static entries only) *)
 
 (* ---------- maps ---------- *)
 Definition del {V} (k : N) (m : list (N * V)) : list (N * V) :=
@@ -150,8 +152,7 @@ Definition bump (s : state) (v : N) : N := N.max (next s) (v + 1).
 (* ---------- Peer::handle_handshake_response ---------- *)
 Inductive presult :=
 | PRejected (p : peer) (outs : list out)
-| PAccepted (p : peer) (outs : list out) (ch : N) (signed_m : option N)
-| PPanic.
+| PAccepted (p : peer) (outs : list out) (ch : N) (signed_m : option N).
 
 Definition key_differs (p : peer) (k : N) : bool :=
   match p_pk p with Some k' => negb (k' =? k) | None => false end.
@@ -164,7 +165,9 @@ Definition peer_response (g : cfg) (now c : N) (p : peer) (r : response) : presu
       if negb (verify ch (r_sig r) (r_pk r)) then PRejected (mark_disc now p) [ODisconnect c]
       else if negb (v_same_minor (my_cver g) (r_cver r)) then
         PRejected (mark_disc now p) [OEvent EV_NEW_VERSION c; ODisconnect c]
-      else if key_differs p (r_pk r) then PPanic     (* assert_eq!(response.public_key, self.public_key) *)
+      (* the entry already records another key: rejected like any other unacceptable
+         response (an assert_eq! panic before fix ae2aeaa) *)
+      else if key_differs p (r_pk r) then PRejected (mark_disc now p) [ODisconnect c]
       else
         let p' := mkP Connected (p_static p) None (Some (r_pk r)) (r_cver r) (r_wver r)
                       (p_lim p) (p_disc p) in
@@ -199,11 +202,48 @@ Definition PEER_REMOVAL_WINDOW : N := 600000.
 Definition purgeable (now : N) (cp : N * peer) : bool :=
   negb (p_static (snd cp)) &&
   match p_disc (snd cp) with None => false | Some d => d + PEER_REMOVAL_WINDOW <=? now end.
-Definition del_key_of (a : list (N * N)) (cp : N * peer) : list (N * N) :=
-  match p_pk (snd cp) with Some k => del k a | None => a end.
+(* Since fix 88efef8 a purged entry gives its key up only if the map points at
+   it, and the key is re-pointed to a remaining entry of that key: a Connected
+   one first, then the highest index.  (The code re-points among the entries
+   present at that moment of its loop; whatever the HashMap order of the loop,
+   the result is the best entry that survives the purge, which is what is
+   modelled: [keep] = the surviving entries.) *)
+Definition is_conn (p : peer) : bool := status_eqb (p_status p) Connected.
+Definition better (a b : N * bool) : bool :=
+  (snd a && negb (snd b)) || (Bool.eqb (snd a) (snd b) && (fst b <? fst a)).
+Fixpoint best (K : N) (ps : list (N * peer)) : option (N * bool) :=
+  match ps with
+  | [] => None
+  | (c, p) :: t =>
+      let r := best K t in
+      match p_pk p with
+      | Some k =>
+          if k =? K then
+            match r with
+            | None => Some (c, is_conn p)
+            | Some b => if better (c, is_conn p) b then Some (c, is_conn p) else r
+            end
+          else r
+      | None => r
+      end
+  end.
+Definition repoint (keep : list (N * peer)) (a : list (N * N)) (cp : N * peer) : list (N * N) :=
+  match p_pk (snd cp) with
+  | Some K =>
+      match aget K a with
+      | Some c =>
+          if c =? fst cp then
+            match best K keep with
+            | Some b => aset K (fst b) a
+            | None => del K a
+            end
+          else a
+      | None => a
+      end
+  | None => a
+  end.
 
 (* panic sites *)
-Definition SITE_KEY_CHANGED : N := 1.     (* peer.rs: assert_eq!(response.public_key, self.public_key.unwrap()) *)
 Definition SITE_JOIN_CONNECTED : N := 2.  (* peer.rs: join_as_reconnection assert!(old peer not Connected) *)
 Definition SITE_EXPECT_PEER : N := 3.     (* network.rs: .expect("peer should exist here ...") *)
 
@@ -227,7 +267,9 @@ Definition step (g : cfg) (s : state) (a : action)
       let p0 := match aget c (peers s) with Some p => p | None => new_peer end in
       let p1 := set_status p0 Connecting in
       if p_static p1 then
-        Ok (upd_peers s (aset c p1 (peers s)), [], [EReset c])
+        (* no handshake is initiated on an outgoing connection, and challenge_for_peer is not touched *)
+        Ok (upd_peers s (aset c p1 (peers s)), [],
+            match p_chal p1 with Some ch => [EStale c ch; EReset c] | None => [EReset c] end)
       else
         (* Peer::initiate_handshake *)
         let ch := next s in
@@ -259,7 +301,6 @@ Definition step (g : cfg) (s : state) (a : action)
             Ok (mkS (aset c (set_lim p l) (peers s)) (addr s) nx (now s) (signed s), [], [])
           else
             match peer_response g (now s) c (set_lim p l) r with
-            | PPanic => Panic SITE_KEY_CHANGED
             | PRejected p2 outs =>
                 Ok (mkS (aset c p2 (peers s)) (addr s) nx (now s) (signed s),
                     outs ++ [ODisconnect c], [EReset c])
@@ -307,7 +348,7 @@ Definition step (g : cfg) (s : state) (a : action)
   | APurge =>
       let gone := filter (purgeable (now s)) (peers s) in
       let keep := filter (fun cp => negb (purgeable (now s) cp)) (peers s) in
-      Ok (mkS keep (fold_left del_key_of gone (addr s)) (next s) (now s) (signed s), [],
+      Ok (mkS keep (fold_left (repoint keep) gone (addr s)) (next s) (now s) (signed s), [],
           map (fun cp => EPurged (fst cp)) gone)
   | ATick dt =>
       Ok (mkS (peers s) (addr s) (next s) (now s + dt) (signed s), [], [])
